@@ -1495,7 +1495,7 @@ func (enc *VP8Encoder) initPassStats() *passStats {
 	// Clamp quality to [qmin, qmax] range (matching C behavior).
 	qmin := float64(enc.config.QMin)
 	qmax := float64(enc.config.QMax)
-	if qmax <= 0 {
+	if qmax < 0 { // only negative values stand for the default; 0 is a legal cap
 		qmax = 100.0
 	}
 	q := float64(enc.config.Quality)
